@@ -10,7 +10,8 @@ from .common import VERIF, MachineryError, import_pams, sub_seed
 import_pams()
 from pams.runners.sequential import SequentialRunner  # noqa: E402
 
-PROBE_CLASSES = [probes.ScriptAgent, probes.ScriptHFT, probes.ProbeMarket, probes.ProbeIndexMarket, probes.ProbeEvent]
+PROBE_CLASSES = [probes.ScriptAgent, probes.ScriptHFT, probes.ProbeMarket, probes.ProbeIndexMarket, probes.ProbeEvent,
+                 probes.ProbeArbitrageAgent]
 
 
 def rate_class(x):
@@ -35,8 +36,9 @@ def random_config(rng, flavour="mixed"):
     script = {"pEmpty": rng.choice([0.0, 0.3, 0.6]), "pCancel": rng.choice([0.1, 0.3]), "pMarket": rng.choice([0.0, 0.1, 0.3]),
               "maxBatch": rng.choice([1, 2, 3]), "maxVol": rng.choice([1, 3, 5]), "spread": rng.choice([1, 3, 5]),
               "ttls": rng.choice([[0], [0, 1, 2, 5], [1, 1, 2]]), "pOff": rng.choice([0.0, 0.25])}
+    # (sometimes endowments so small that positions and cash go negative: short sales and debts are ordinary fills)
     cfg["N"] = {"class": "ScriptAgent", "numAgents": rng.randint(1, 5), "markets": list(all_markets),
-                "assetVolume": 50, "cashAmount": 10000, "script": script}
+                "assetVolume": rng.choice([50, 50, 50, 1, 0]), "cashAmount": rng.choice([10000, 10000, 64]), "script": script}
     hscript = dict(script)
     hscript["pEmpty"] = rng.choice([0.0, 0.5])
     cfg["H"] = {"class": "ScriptHFT", "numAgents": rng.randint(1, 3), "markets": list(all_markets),
